@@ -261,3 +261,212 @@ Section Words.
     - eapply erases_equiv_l; [apply item_equiv_sym; exact Hex'|exact Hxit].
   Qed.
 End Words.
+
+(** *** One walk per command line, outside the known mechanisms *)
+Definition known_C09_none (c : cdfa) : Prop := Ambig.find c = None.
+
+Definition none_wild : witem -> string -> Prop := fun _ _ => False.
+
+Lemma none_wild_erase : forall a w, none_wild (erase_witem a) w <-> none_wild a w.
+Proof. intros a w. unfold none_wild. tauto. Qed.
+
+Section Unambiguous.
+  Variables (pick : nat -> list (list N) -> nat) (fuel : nat) (v : valid_grammar) (c : cdfa).
+  Hypothesis Halts : alts_nonempty (v_expr v) = true.
+  Hypothesis Hc : compile_valid pick fuel v = Ok c.
+
+  (** reading in the sense of this file is reading in the sense of [Spec.Ambig] *)
+  Lemma reads_matches : forall i x w,
+    nthN (d_inputs (c_main c)) i = Some x ->
+    item_reads none_wild (item_of_inp c x) w -> matches_item c x w.
+  Proof.
+    intros i x w Hx R. destruct x as [t d l|k l|cm l|cm l|]; simpl in R; try (destruct R; fail).
+    - simpl. symmetry. exact R.
+    - destruct R as [vv [Hv Hr]].
+      assert (Hin : In (ISub k l) (d_inputs (c_main c))) by (unfold nthN in Hx; eapply nth_error_In; eauto).
+      destruct (sub_facts pick fuel v c k l Halts Hc Hin) as [sd [Hsd Hok]].
+      assert (E : sub_dfa c k = sd) by (unfold sub_dfa; apply nth_error_nth; exact Hsd).
+      rewrite E in Hv. simpl. exists sd. split; [exact Hsd|].
+      apply (tacc_waccepts sd (so_wf _ Hok)). eauto.
+  Qed.
+
+  Hypothesis Hknown : Ambig.find c = None.
+
+  Lemma wpath_det : forall s ws s1, wpath none_wild c s ws s1 ->
+    forall s2, wpath none_wild c s ws s2 -> s1 = s2.
+  Proof.
+    pose proof (find_none_unambiguous c Hknown) as U.
+    intros s ws s1 P. induction P as [s|s i x t w ws s1 Hs Hx Hr P IH]; intros s2 P2.
+    - inversion P2; subst. reflexivity.
+    - inversion P2 as [|? i' x' t' ? ? ? Hs' Hx' Hr' P2']; subst.
+      assert (t = t').
+      { eapply (U s i i' x x' w t t'); eauto; eapply reads_matches; eauto. }
+      subst t'. apply IH. exact P2'.
+  Qed.
+
+  (** item words accepted from a state *)
+  Definition accepts_items_from (s : N) (r : list item) : Prop :=
+    exists ids, Dfa.accepts_from (c_main c) s ids = true /\
+      Forall2 (fun i it => exists x, nthN (d_inputs (c_main c)) i = Some x /\
+                                     item_equiv (item_of_inp c x) it) ids r.
+
+  Lemma accepts_split : forall p r, accepts_items c (p ++ r) ->
+    exists ids0 s, run (c_main c) (d_start (c_main c)) ids0 = Some s /\
+      Forall2 (fun i it => exists x, nthN (d_inputs (c_main c)) i = Some x /\
+                                     item_equiv (item_of_inp c x) it) ids0 p /\
+      accepts_items_from s r.
+  Proof.
+    intros p r [ids [Ha F]]. apply Forall2_app_inv_r in F. destruct F as [ids0 [idsr [F0 [Fr ->]]]].
+    unfold accepts, Dfa.accepts_from in Ha. rewrite run_app in Ha.
+    destruct (run (c_main c) (d_start (c_main c)) ids0) as [s|] eqn:Hrun; [|discriminate].
+    exists ids0, s. split; [exact Hrun|]. split; [exact F0|]. exists idsr. split; [exact Ha|exact Fr].
+  Qed.
+
+  Lemma accepts_join : forall ids0 s p r,
+    run (c_main c) (d_start (c_main c)) ids0 = Some s ->
+    Forall2 (fun i it => exists x, nthN (d_inputs (c_main c)) i = Some x /\
+                                   item_equiv (item_of_inp c x) it) ids0 p ->
+    accepts_items_from s r -> accepts_items c (p ++ r).
+  Proof.
+    intros ids0 s p r Hrun F0 [idsr [Ha Fr]]. exists (ids0 ++ idsr). split; [|apply Forall2_app; assumption].
+    unfold accepts, Dfa.accepts_from. rewrite run_app, Hrun. exact Ha.
+  Qed.
+
+  (** Grammar side: two readings of the same typed words have the same continuations. *)
+  Theorem readings_same_continuations : forall ws p q,
+    Forall2 (item_reads none_wild) p ws -> Forall2 (item_reads none_wild) q ws ->
+    (exists r, denotes (v_expr v) (p ++ r)) -> (exists r, denotes (v_expr v) (q ++ r)) ->
+    forall r, denotes (v_expr v) (p ++ r) <-> denotes (v_expr v) (q ++ r).
+  Proof.
+    pose proof (driver_correct pick fuel v c Halts Hc) as L.
+    assert (G : forall p q ws, Forall2 (item_reads none_wild) p ws -> Forall2 (item_reads none_wild) q ws ->
+                (exists r, denotes (v_expr v) (q ++ r)) ->
+                forall r, denotes (v_expr v) (p ++ r) -> denotes (v_expr v) (q ++ r)).
+    { intros p q ws Rp Rq [r0 Hq] r Hp.
+      apply L in Hq. apply accepts_split in Hq. destruct Hq as [ids2 [s2 [Hrun2 [F2 _]]]].
+      apply L in Hp. apply accepts_split in Hp. destruct Hp as [ids1 [s1 [Hrun1 [F1 Hr]]]].
+      assert (P1 : wpath none_wild c (d_start (c_main c)) ws s1).
+      { apply wpath_ids. exists ids1. split; [exact Hrun1|]. eapply ids_of_items; eauto. }
+      assert (P2 : wpath none_wild c (d_start (c_main c)) ws s2).
+      { apply wpath_ids. exists ids2. split; [exact Hrun2|]. eapply ids_of_items; eauto. }
+      rewrite (wpath_det _ _ _ P1 _ P2) in Hr.
+      apply L. exact (accepts_join ids2 s2 q r Hrun2 F2 Hr). }
+    intros ws p q Rp Rq Hp Hq r. split; [apply (G p q ws); assumption|apply (G q p ws); assumption].
+  Qed.
+End Unambiguous.
+
+(** Two *distinct expected items* at the same point that read the same word: the special case
+    the property names. *)
+Corollary same_word_same_continuations : forall pick fuel v c,
+  alts_nonempty (v_expr v) = true -> compile_valid pick fuel v = Ok c -> Ambig.find c = None ->
+  forall ws p q x y w,
+    Forall2 (item_reads none_wild) p ws -> Forall2 (item_reads none_wild) q ws ->
+    item_reads none_wild x w -> item_reads none_wild y w ->
+    (exists r, denotes (v_expr v) (p ++ x :: r)) -> (exists r, denotes (v_expr v) (q ++ y :: r)) ->
+    forall r, denotes (v_expr v) (p ++ x :: r) <-> denotes (v_expr v) (q ++ y :: r).
+Proof.
+  intros pick fuel v c Ha Hc Hk ws p q x y w Rp Rq Rx Ry [r1 H1] [r2 H2] r.
+  assert (E : forall (a : list item) b t, a ++ b :: t = (a ++ [b]) ++ t) by (intros; rewrite <- app_assoc; reflexivity).
+  rewrite (E p x r), (E q y r). rewrite (E p x r1) in H1. rewrite (E q y r2) in H2.
+  apply (readings_same_continuations pick fuel v c Ha Hc Hk (ws ++ [w])).
+  - apply Forall2_app; [exact Rp|repeat constructor; exact Rx].
+  - apply Forall2_app; [exact Rq|repeat constructor; exact Ry].
+  - exists r1. exact H1.
+  - exists r2. exact H2.
+Qed.
+
+(** *** [C09_fallback_transparent], on the compiled automata *)
+Theorem fallback_transparent_compiled : forall builtins g sh v v' pick fuel pick' fuel' c c',
+  from_grammar builtins g sh = Ok v ->
+  from_grammar builtins (bar_grammar g) sh = Ok v' ->
+  grammar_alts_nonempty g = true ->
+  compile_valid pick fuel v = Ok c -> compile_valid pick' fuel' v' = Ok c' ->
+  (* the same item words, up to levels and descriptions *)
+  (forall u, erased_lang (accepts_items c) u <-> erased_lang (accepts_items c') u) /\
+  (* the same command lines matched and the same items expected after them, whatever commands
+     and undefined nonterminals read (as long as that does not depend on their level) *)
+  (forall wild, (forall a w, wild (erase_witem a) w <-> wild a w) ->
+     forall ws,
+       (matched_words wild c ws <-> matched_words wild c' ws) /\
+       (forall x, expected wild c ws x ->
+          exists x' y, expected wild c' ws x' /\ erases (item_of_inp c x) y /\ erases (item_of_inp c' x') y) /\
+       (forall x', expected wild c' ws x' ->
+          exists x y, expected wild c ws x /\ erases (item_of_inp c' x') y /\ erases (item_of_inp c x) y)) /\
+  (* outside the known mechanisms the walk over the words the grammar fixes is unique, in both *)
+  (known_C09_none c -> forall ws s1 s2,
+     wpath none_wild c (d_start (c_main c)) ws s1 -> wpath none_wild c (d_start (c_main c)) ws s2 -> s1 = s2) /\
+  (known_C09_none c' -> forall ws s1 s2,
+     wpath none_wild c' (d_start (c_main c')) ws s1 -> wpath none_wild c' (d_start (c_main c')) ws s2 -> s1 = s2).
+Proof.
+  intros builtins g sh v v' pick fuel pick' fuel' c c' Hv Hv' Hga Hc Hc'.
+  pose proof (fallback_transparent_items _ _ _ _ _ _ _ _ _ _ _ Hv Hv' Hga Hc Hc') as HE.
+  assert (Hga' : grammar_alts_nonempty (bar_grammar g) = true) by (rewrite grammar_alts_nonempty_bar; exact Hga).
+  destruct (check_tree builtins g sh v Hv) as [_ [_ [_ Ha]]]. specialize (Ha Hga).
+  destruct (check_tree builtins (bar_grammar g) sh v' Hv') as [_ [_ [_ Ha']]]. specialize (Ha' Hga').
+  destruct (compiled_facts pick fuel v c Ha Hc) as [_ [W [_ T]]].
+  destruct (compiled_facts pick' fuel' v' c' Ha' Hc') as [_ [W' [_ T']]].
+  split; [exact HE|]. split; [|split].
+  - intros wild Hw ws. split; [apply (transparent_matched wild Hw c c' HE)|]. split.
+    + intros x Hx. apply (transparent_expected wild Hw c c' W T (fun u => proj1 (HE u)) ws x Hx).
+    + intros x' Hx'. apply (transparent_expected wild Hw c' c W' T' (fun u => proj2 (HE u)) ws x' Hx').
+  - intros Hk ws s1 s2 P1 P2. eapply (wpath_det pick fuel v c Ha Hc Hk); eauto.
+  - intros Hk ws s1 s2 P1 P2. eapply (wpath_det pick' fuel' v' c' Ha' Hc' Hk); eauto.
+Qed.
+
+(** the same with the side condition in the boolean form of [Props/C09.v] ([known_C09]) *)
+Definition known_b (c : cdfa) : bool := match Ambig.find c with Some _ => true | None => false end.
+
+Lemma known_b_none : forall c, known_b c = false -> Ambig.find c = None.
+Proof. intros c H. unfold known_b in H. destruct (Ambig.find c); [discriminate|reflexivity]. Qed.
+
+Theorem fallback_transparent_compiled_b : forall builtins g sh v v' pick fuel pick' fuel' c c',
+  from_grammar builtins g sh = Ok v ->
+  from_grammar builtins (bar_grammar g) sh = Ok v' ->
+  grammar_alts_nonempty g = true ->
+  compile_valid pick fuel v = Ok c -> compile_valid pick' fuel' v' = Ok c' ->
+  (forall u, erased_lang (accepts_items c) u <-> erased_lang (accepts_items c') u) /\
+  (forall wild, (forall a w, wild (erase_witem a) w <-> wild a w) ->
+     forall ws,
+       (matched_words wild c ws <-> matched_words wild c' ws) /\
+       (forall x, expected wild c ws x ->
+          exists x' y, expected wild c' ws x' /\ erases (item_of_inp c x) y /\ erases (item_of_inp c' x') y) /\
+       (forall x', expected wild c' ws x' ->
+          exists x y, expected wild c ws x /\ erases (item_of_inp c' x') y /\ erases (item_of_inp c x) y)) /\
+  (known_b c = false -> forall ws s1 s2,
+     wpath none_wild c (d_start (c_main c)) ws s1 -> wpath none_wild c (d_start (c_main c)) ws s2 -> s1 = s2) /\
+  (known_b c' = false -> forall ws s1 s2,
+     wpath none_wild c' (d_start (c_main c')) ws s1 -> wpath none_wild c' (d_start (c_main c')) ws s2 -> s1 = s2).
+Proof.
+  intros builtins g sh v v' pick fuel pick' fuel' c c' Hv Hv' Hga Hc Hc'.
+  destruct (fallback_transparent_compiled _ _ _ _ _ _ _ _ _ _ _ Hv Hv' Hga Hc Hc') as [A [B [C D]]].
+  split; [exact A|]. split; [exact B|]. split.
+  - intros Hk. apply C. apply known_b_none. exact Hk.
+  - intros Hk. apply D. apply known_b_none. exact Hk.
+Qed.
+
+Theorem unambiguous_compiled_b : forall pick fuel v c,
+  alts_nonempty (v_expr v) = true -> compile_valid pick fuel v = Ok c -> known_b c = false ->
+  (forall ws p q,
+     Forall2 (item_reads none_wild) p ws -> Forall2 (item_reads none_wild) q ws ->
+     (exists r, denotes (v_expr v) (p ++ r)) -> (exists r, denotes (v_expr v) (q ++ r)) ->
+     forall r, denotes (v_expr v) (p ++ r) <-> denotes (v_expr v) (q ++ r)) /\
+  (forall ws p q x y w,
+     Forall2 (item_reads none_wild) p ws -> Forall2 (item_reads none_wild) q ws ->
+     item_reads none_wild x w -> item_reads none_wild y w ->
+     (exists r, denotes (v_expr v) (p ++ x :: r)) -> (exists r, denotes (v_expr v) (q ++ y :: r)) ->
+     forall r, denotes (v_expr v) (p ++ x :: r) <-> denotes (v_expr v) (q ++ y :: r)).
+Proof.
+  intros pick fuel v c Ha Hc Hk. apply known_b_none in Hk. split.
+  - apply (readings_same_continuations pick fuel v c Ha Hc Hk).
+  - apply (same_word_same_continuations pick fuel v c Ha Hc Hk).
+Qed.
+
+(** the [|] variant through the pipeline, from a text *)
+Definition compile_bar (pick : nat -> list (list N) -> nat) (fuel : nat)
+           (builtins : shell -> list (string * string)) (text : string) (sh : shell) : dres cdfa :=
+  match Parser.parse text with
+  | Ok g => do v <- lift DCheck (from_grammar builtins (bar_grammar g) sh); compile_valid pick fuel v
+  | Err sp => Err (DParse sp)
+  | Panic s => Panic s
+  | OutOfFuel => OutOfFuel
+  end.
